@@ -47,6 +47,9 @@ CHECKS = {
  "C17": (TV, "TLC refinement with split-port memory classes in M6502 (faults on wrong-port access / RMW) + CSem final state", "6.C17",
          "GenProg programs compiled with feature atari2600 and subsets of the variables declared superchip, or bank-resident RAM under 3E / 3E+; M6502's memory model raises a fault for a read through a write port, a write through a read port and any read-modify-write on either; the final state must equal what CSem prescribes; a control group of ordinary placements is included.",
          "Trusted: split-port address windows as laid out by the harness (superchip: write $1000, read +$80; 3E: read $1000, write +$400; 3E+: write +$200)."),
+ "C18": (TV, "TLC refinement: io log of M6502 vs explicit accesses prescribed by CSem, all -O levels pairwise; csleep cycle difference by Enc6502 cycle table", "6.C18",
+         "FX: sequences of load/store/strobe/asm/csleep and ordinary statements (also inside if and for) at -O0/-O1/-O2: the sequence of accesses to the port cells (order, direction, value) executed by the 6502 model must equal what CSem prescribes, and the levels must agree. FS: csleep(n) for n = 0..12 in four contexts against the same program without it: exactly n cycles more, identical final state (A preserved between load and store).",
+         "Trusted: Enc6502 cycle table (no page-cross penalty), asm menu meanings. Built with feature atari2600."),
  "C16": (EX, "systematic token-level mutation of the repository's own test inputs; every recorded outcome validated by TLC against Outcome.tla", "6.C16",
          "About 24 000 (quick) near-valid programs: each C source the repository's tests compile (read from src/lib.rs at run time) and eight own programs, mutated at token level (delete, duplicate, swap, replace/insert from a 130-entry menu of keywords, operators, malformed and out-of-range literals, quotes, directives, self-referential macros, deep nesting), under five option sets, each compiled in a child process with a deadline; TLC accepts an outcome iff it is a result or a located/structured error. Exploration, not a proof of totality.",
          "8 MB stack, 2.5 s deadline. Crash findings are identified by source file and panic message."),
